@@ -24,7 +24,9 @@ RECURSIVE MayVary(_)
 MayVarySeq(ns) == \E i \in 1..Len(ns) : MayVary(ns[i])
 MayVary(n) ==
     CASE n.k = "Variable" -> n.nm \in {"random", "shuffle", "now", "millis", "keys", "each", "spread", "sift", "merge"}
-      [] n.k \in {"Wildcard", "Descendent", "Object", "Group", "Transform"} -> TRUE
+      [] n.k \in {"Wildcard", "Descendent"} -> TRUE
+      [] n.k \in {"Object", "Group"} -> (\E i \in 1..Len(n.pairs) : MayVary(n.pairs[i][1]) \/ MayVary(n.pairs[i][2])) \/ (n.k = "Group" /\ MayVary(n.e))
+      [] n.k = "Transform" -> MayVary(n.pat) \/ MayVary(n.upd) \/ MayVary(n.del)
       [] n.k = "Path" -> MayVarySeq(n.steps)
       [] n.k \in {"Negation"} -> MayVary(n.e)
       [] n.k \in {"NumOp", "CmpOp", "BoolOp", "Concat", "Range", "Apply"} -> MayVary(n.l) \/ MayVary(n.r)
@@ -38,7 +40,29 @@ MayVary(n) ==
       [] n.k = "Sort" -> MayVary(n.e) \/ \E i \in 1..Len(n.terms) : MayVary(n.terms[i].e)
       [] OTHER -> FALSE
 
+\* an object constructor with several failing pairs may report any of their errors (Go's map order): between two
+\* evaluations only the error may differ, never a value
+RECURSIVE HasCtor(_)
+HasCtorSeq(ns) == \E i \in 1..Len(ns) : HasCtor(ns[i])
+HasCtor(n) ==
+    CASE n.k \in {"Object", "Group"} -> TRUE
+      [] n.k = "Transform" -> HasCtor(n.pat) \/ HasCtor(n.upd) \/ HasCtor(n.del)
+      [] n.k = "Path" -> HasCtorSeq(n.steps)
+      [] n.k \in {"Negation"} -> HasCtor(n.e)
+      [] n.k \in {"NumOp", "CmpOp", "BoolOp", "Concat", "Range", "Apply"} -> HasCtor(n.l) \/ HasCtor(n.r)
+      [] n.k = "Array" -> HasCtorSeq(n.items)
+      [] n.k = "Block" -> HasCtorSeq(n.exprs)
+      [] n.k \in {"Lambda", "TypedLambda"} -> HasCtor(n.body)
+      [] n.k \in {"Partial", "Call"} -> HasCtor(n.fn) \/ HasCtorSeq(n.args)
+      [] n.k = "Predicate" -> HasCtor(n.e) \/ HasCtorSeq(n.filters)
+      [] n.k = "Cond" -> HasCtor(n.c) \/ HasCtor(n.th) \/ (n.el.k # "None" /\ HasCtor(n.el))
+      [] n.k = "Assign" -> HasCtor(n.e)
+      [] n.k = "Sort" -> HasCtor(n.e) \/ \E i \in 1..Len(n.terms) : HasCtor(n.terms[i].e)
+      [] OTHER -> FALSE
+
 Has(e, f) == f \in DOMAIN e
+\* the two outcomes are both errors (what a constructor's map order may change)
+ErrorsOnly(e, other) == HasCtor(e.ast) /\ e.out.o = "err" /\ Has(e, other) /\ "o" \in DOMAIN e[other] /\ e[other].o = "err"
 
 \* the verdict on one recorded step: the semantic verdict followed by the frame conditions of
 \* the Eval action that the step violates (nothing but the outcome may change: C05, C07; the
@@ -53,8 +77,8 @@ LineVerdict(e) ==
         f2 == IF (Has(e, "binds_same") /\ ~e.binds_same) \/ (Has(e, "binds_after") /\ e.binds_after # e.binds) THEN ";binds-modified" ELSE ""
         f3 == IF (Has(e, "ast_same") /\ ~e.ast_same) \/ (Has(e, "ast_after") /\ e.ast_after # e.ast) THEN ";ast-modified" ELSE ""
         f4 == IF Has(e, "str_same") /\ ~e.str_same THEN ";string-changed" ELSE ""
-        f5 == IF Has(e, "same2") /\ ~e.same2 /\ ~MayVary(e.ast) THEN ";not-repeatable" ELSE ""
-        f5b == IF Has(e, "same3") /\ ~e.same3 /\ ~MayVary(e.ast) THEN ";history-dependent" ELSE ""
+        f5 == IF Has(e, "same2") /\ ~e.same2 /\ ~MayVary(e.ast) /\ ~ErrorsOnly(e, "out2") THEN ";not-repeatable" ELSE ""
+        f5b == IF Has(e, "same3") /\ ~e.same3 /\ ~MayVary(e.ast) /\ ~ErrorsOnly(e, "out3") THEN ";history-dependent" ELSE ""
         f6 == IF Has(e, "mar") /\ e.mar # "ok" THEN ";not-json" ELSE ""
         f7 == IF Has(e, "eb") /\ e.eb \notin {"ok", "skip"} /\ ~(MayVary(e.ast) /\ e.eb \in {"different-value", "different-error"}) THEN ";evalbytes-differs" ELSE ""
         f8 == IF v = "no" /\ UndefDiffers(e.out, IF Has(e, "want_ast") THEN e.want_ast ELSE e.ast, e.inp, e.binds, eng) THEN ";undefined-mismatch" ELSE ""
